@@ -140,6 +140,8 @@ def generate(rnd, tier):
                 sampler = {"callable": "recording", "inner": inner} if rnd.random() < 0.8 else inner
                 if "callable" in sampler and rnd.random() < 0.12:
                     sampler["reenter"] = True
+            if "callable" in sampler and rnd.random() < 0.3:
+                sampler["outer_strat"] = rnd.choice(["by_label", "by_group", "by_group"])
             op["sampler"] = sampler
             op["cfg"] = {"nb_samples": rnd.randint(2, 3) if wide else rnd.randint(2, 60), "bootstrap_method": rnd.choice(["quantile", "bc", "bca", "bca"])}
             if rnd.random() < 0.1:
@@ -360,7 +362,7 @@ def execute(scn, ctx):
                 sampler = RecSampler(s_kind, inner, raise_at=ra)
                 sampler.reenter = bool(sspec.get("reenter"))
                 sampler.raise_exc = next((f.get("exc") for f in (op.get("faults") or []) if f["kind"] == "sampler_raise"), None)
-                config = M.build_config(dict(cfg, sampling_method={"callable": s_kind}), sampler=sampler)
+                config = M.build_config(dict(cfg, sampling_method={"callable": s_kind}, stratified_sampling=sspec.get("outer_strat")), sampler=sampler)
             else:
                 config = M.build_config(dict(sspec, **cfg))
             kw = {"bootstrap_ci": True, "bootstrap_config": config, "alpha": op["alpha"]}
